@@ -59,7 +59,9 @@ type row struct {
 }
 
 // keySeq mirrors KeySeq of Pruner.tla (index 8 is MISSING).
-var keySeq = []tok{{"int", 0}, {"int", 2}, {"float", 3}, {"int", 4}, {"int", 6}, {"str", 0}, {"str", 1}, {"null", 0}, {"missing", 0}}
+var keySeq = []tok{{"int", 0}, {"int", 2}, {"float", 3}, {"int", 4}, {"int", 6}, {"str", 0}, {"str", 1}, {"null", 0}, {"nullint", 0}, {"missing", 0}}
+
+const nRange = 9 // keySeq[:nRange] can be object bounds (missing cannot)
 
 func lit(t tok) string {
 	switch t.T {
@@ -71,6 +73,8 @@ func lit(t tok) string {
 		return fmt.Sprintf("%q", string(rune('a'+t.N)))
 	case "null":
 		return "null"
+	case "nullint":
+		return "null(int64)"
 	}
 	panic("lit " + t.T)
 }
@@ -269,7 +273,7 @@ func (e *env) checkRow(r *row) error {
 			return err
 		}
 		// Real evaluation of the filter on every key (opaque true/false).
-		var realT, realF [9]string
+		var realT, realF [10]string
 		for i, k := range keySeq {
 			realT[i] = tri(cp.filter.Eval(expr.NewContext(), e.val(rec(k, true))))
 			realF[i] = tri(cp.filter.Eval(expr.NewContext(), e.val(rec(k, false))))
@@ -279,8 +283,8 @@ func (e *env) checkRow(r *row) error {
 				c.Drift("evaluator: %s on %s: spec %s/%s real %s/%s", text, rec(k, true), r.EvalT[i], r.EvalF[i], realT[i], realF[i])
 			}
 		}
-		for i := 0; i < 8; i++ {
-			for j := 0; j < 8; j++ {
+		for i := 0; i < nRange; i++ {
+			for j := 0; j < nRange; j++ {
 				specDec := r.Prune[i][j]
 				if specDec == "-" {
 					continue
